@@ -589,6 +589,107 @@ def rule_OD16(rep, prog_io):
         rep.unknown(rid, "fewer than 20 (block, released capture) pairs found in io.c (%d)" % n)
 
 
+def rule_OD18(rep, prog):
+    rid = rep.rule("C17-OD18", "replacing an object's target queue gives the previous one back: a function that installs a target it has just retained into an EXISTING object "
+                   "(not one it allocated / initialises) obtains the previous do_targetq in the same step (atomic exchange, or a load of the field before the store) and "
+                   "releases it when it is not NULL - a plain store leaks the previous target, which is then never finalised", floor=1)
+    REL = ("_dispatch_release", "dispatch_release", "_dispatch_release_tailcall", "_dispatch_release_2", "_dispatch_release_2_tailcall")
+    ALLOC = ("_dispatch_object_alloc", "_dispatch_queue_alloc", "_dispatch_queue_init", "_dispatch_calloc", "calloc", "_os_object_alloc_realized")
+    INIT_ONLY = {"_dispatch_data_init": "initialises a freshly allocated data object (its callers allocate it): there is no previous target to release"}
+    n = 0
+    for fn in sorted(prog.all_functions(), key=lambda f: f.name):
+        for i in fn.all_insts():
+            if i.op not in ("store", "atomicrmw") or "do_targetq" not in prog.fields(i):
+                continue
+            base = root_ptr(fn, i.d["ptr"]["base"])
+            bi = fn.inst(list(base)) if base[0] == "i" else None
+            if bi is not None and bi.op == "call" and bi.callee in ALLOC:
+                continue
+            v = i.ops[0] if i.op == "store" else i.ops[-1]
+            if v[0] in ("n", "g", "c"):
+                continue
+            rets = [c for c in fn.all_insts() if c.op == "call" and c.callee in ("_dispatch_retain", "dispatch_retain") and root_ptr(fn, c.ops[0]) == root_ptr(fn, v)]
+            if not rets or fn.name in INIT_ONLY:
+                continue
+            n += 1
+            rep.saw(fn)
+            if i.op == "atomicrmw":
+                olds = [("i", i.id)]
+            else:
+                olds = [("i", l.id) for l in fn.all_insts() if l.op == "load" and "do_targetq" in prog.fields(l) and root_ptr(fn, l.d["ptr"]["base"]) == base and fn.dominates(l, i)]
+            released = any(c.op == "call" and c.callee in REL and root_ptr(fn, c.ops[0]) in olds for c in fn.all_insts())
+            rep.require(rid, released, i.loc, fn.name, "previous-target-not-released:%s" % fn.name,
+                        "%s installs a new (retained) target queue into an existing object without releasing the previous one: retargeting a not yet activated source "
+                        "or an initially inactive queue from queue A to queue B leaves A retained for ever - A's finalizer never runs after the application's last "
+                        "release" % fn.name, sample={"site": i.loc, "form": i.op})
+    if n < 1:
+        rep.unknown(rid, "no in-place retarget (retain new target, install, release previous) found")
+
+
+def rule_WM17(rep, prog):
+    rid = rep.rule("C17-WM17", "a queue-specific value and its destructor are replaced together: in dispatch_queue_set_specific every store of the client's value into "
+                   "dqs_ctxt is paired, on every path, with a store of the client's destructor (NULL included) into dqs_destructor of the same entry - a value "
+                   "registered without a destructor must not inherit the destructor of the value it replaced", floor=2)
+    fn = prog.fn("dispatch_queue_set_specific")
+    rep.saw(fn)
+    cst = [st for st in fn.all_insts() if st.op == "store" and "dqs_ctxt" in prog.fields(st) and st.ops[0][0] == "a"]
+    dst = [st for st in fn.all_insts() if st.op == "store" and "dqs_destructor" in prog.fields(st) and st.ops[0][0] == "a"]
+    if len(cst) < 2:
+        rep.unknown(rid, "dispatch_queue_set_specific: fewer than 2 stores of the client's value found (%d)" % len(cst))
+        return
+    for st in cst:
+        base = root_ptr(fn, st.d["ptr"]["base"])
+        ok = any(root_ptr(fn, d_.d["ptr"]["base"]) == base and (d_.block is st.block or fn.postdominates(d_, st) or (fn.dominates(d_, st) and fn.postdominates(st, d_))) for d_ in dst)
+        rep.require(rid, ok, st.loc, fn.name, "specific-value-replaced-without-its-destructor",
+                    "dispatch_queue_set_specific stores a new value for a key without (on every path) storing the destructor given with it: replacing a value that had a "
+                    "destructor by one registered with a NULL destructor keeps the old destructor, which later runs on a value the caller still owns",
+                    sample={"store": st.loc})
+
+
+def rule_OD19(rep, prog, q):
+    rid = rep.rule("C17-OD19", "the +2 a block object holds on the queue it was submitted to is given back by whoever takes the queue out of dbpd_queue: every function that "
+                   "exchanges dbpd_queue with NULL hands the old value to _dispatch_release_2* or to a wake-up that carries DISPATCH_WAKEUP_CONSUME_2 - otherwise the "
+                   "queue keeps two internal references for ever and is never finalised after the last release", floor=3)
+    n = 0
+    for fn in sorted(prog.all_functions(), key=lambda f: f.name):
+        for x in fn.all_insts():
+            if x.op != "atomicrmw" or x.d.get("rmw") != "xchg" or "dbpd_queue" not in prog.fields(x) or not (x.ops[-1][0] in ("n", "c")):
+                continue
+            n += 1
+            rep.saw(fn)
+            old = ("i", x.id)
+            def is_old(o):
+                r = root_ptr(fn, o)
+                if tuple(r[:2]) == old:
+                    return True
+                i = fn.inst(o)
+                seen = 0
+                while i is not None and i.op in ("bitcast", "inttoptr", "ptrtoint", "phi") and seen < 5:
+                    seen += 1
+                    if i.op == "phi":
+                        return any(is_old(v) for v, frm in i.ops if v[0] == "i")
+                    if tuple(i.ops[0][:2]) == old:
+                        return True
+                    i = fn.inst(i.ops[0])
+                return False
+            gives = []
+            for c in fn.all_insts():
+                if c.op != "call" or not c.ops or not is_old(c.ops[0]):
+                    continue
+                if c.callee in ("_dispatch_release_2", "_dispatch_release_2_tailcall", "_dispatch_release_2_no_dispose"):
+                    gives.append(c)
+                elif (not c.callee or c.callee.endswith("_wakeup")) and len(c.ops) >= 3:
+                    fl = arg_const(fn, c, 2)
+                    if fl is not None and fl & q.CONSUME_2:
+                        gives.append(c)
+            rep.require(rid, bool(gives), x.loc, fn.name, "block-queue-reference-not-given-back:%s" % fn.name,
+                        "%s takes the queue out of the block object's dbpd_queue (and with it the two references dispatch_async put on the queue) but neither releases them "
+                        "nor passes them to a wake-up with CONSUME_2: after dispatch_block_wait on a still pending block the queue is never finalised" % fn.name,
+                        sample={"site": x.loc, "fn": fn.name})
+    if n < 3:
+        rep.unknown(rid, "fewer than 3 functions taking dbpd_queue found (%d)" % n)
+
+
 def rule_OD13(rep, prog, q):
     rid = rep.rule("C17-OD13", "last external release of a runloop queue: the queue is unbound from its thread (_dispatch_queue_clear_bound_thread clears the drain owner) "
                    "BEFORE the hand-over wakeup - a wakeup that still sees an owner only marks the queue DIRTY and enqueues nothing, so the last internal release "
@@ -764,6 +865,12 @@ def run(rep, tier="quick", srcdir=None, only=None):
         rule_OD13(rep, prog, q)
     if want("C17-OD15"):
         rule_OD15(rep, prog)
+    if want("C17-OD18"):
+        rule_OD18(rep, prog)
+    if want("C17-OD19"):
+        rule_OD19(rep, prog, q)
+    if want("C17-WM17"):
+        rule_WM17(rep, prog)
     if want("C07-MP6"):
         # the reference a pending notification holds on its queue is dropped only after the block has been handed to that queue (shared with C07)
         from . import C07
